@@ -52,7 +52,7 @@ PROPS = {
     "C02": {"scen": [("c02", ["internal", "internalp", "omp", "tbb", "debug"])], "quick": 32, "thorough": 900},
     "C13": {"scen": [("c13", ["internal", "omp", "tbb", "debug"])], "quick": 28, "thorough": 600},
     "C20": {"scen": [("c20trace", ["debug"]), ("c20traceg", ["debug"]), ("c20img", ["debug"])], "quick": 24, "thorough": 600},
-    "C14": {"scen": [("c14", ["asan"]), ("c14", ["asantbb"])], "quick": 20, "thorough": 600},
+    "C14": {"scen": [("c14", ["asan"]), ("c14tbb", ["asantbb"])], "quick": 20, "thorough": 600},
     "C15": {"scen": [("c15", ["asan"])], "quick": 20, "thorough": 600},
     "C16": {"scen": [("c16", ["asan"])], "quick": 20, "thorough": 600},
 }
@@ -350,25 +350,22 @@ def main():
     for (k, lane, sig, final, n) in known_hits:
         log("KNOWN-FINDING: property=%s %s [lane %s, signature %s, %d runs, replay %s]" %
             (prop, k.get("what", ""), lane, sig, n, os.path.relpath(final, VERIF)))
-    if ev["det_mismatch"] or broken:
-        for b in broken[:20]:
-            log("BROKEN:", b)
-        if ev["det_mismatch"]:
-            log("BROKEN: determinism sample mismatches: %d" % ev["det_mismatch"])
-        # a broken check must not pass; but report real violations first
-        for (lane, sig, final, detail, n, info) in new_violations:
-            log("VIOLATION property=%s replay=%s" % (prop, final))
-            log("  signature=%s lane=%s runs=%d detail=%s" % (sig, lane, n, detail))
-        sys.exit(2)
-    if ev["runs"] == 0:
-        log("BROKEN: no runs executed")
-        sys.exit(2)
+    for b in broken[:20]:
+        log("BROKEN:", b)
+    if ev["det_mismatch"]:
+        log("BROKEN: determinism sample mismatches: %d" % ev["det_mismatch"])
     if new_violations:
+        # a gated, minimised, replayable violation stands on its own, whatever else went wrong
         for (lane, sig, final, detail, n, info) in new_violations:
             log("VIOLATION property=%s replay=%s" % (prop, final))
             log("  signature=%s lane=%s runs=%d detail=%s" % (sig, lane, n, detail))
             log("  " + info)
         sys.exit(1)
+    if ev["det_mismatch"] or broken:
+        sys.exit(2)
+    if ev["runs"] == 0:
+        log("BROKEN: no runs executed")
+        sys.exit(2)
     sys.exit(0)
 
 
